@@ -40,6 +40,8 @@ CONTENTS = {
     "c1": {"py": harness.py_function("short_fn", 4), "js": harness.js_function("shortFn", 4)},
     "c2": {"py": harness.py_function("long_fn", 31) + "\n" + harness.py_function("tiny", 2), "js": harness.js_function("longFn", 31)},
     "c3": {"py": "def broken(a,\n    x = (1,\n", "js": "function broken(a {\n  x = (1;\n"},
+    # byte-identical under both languages: a lookup that ignores the path would carry the LANGUAGE of another file over
+    "cx": {"py": "x = 1\n", "js": "x = 1\n"},
 }
 EXCL = ["none", "config", "gitignore"]
 OTHER_VERSION = "0.0.0"
@@ -127,6 +129,9 @@ def fresh_doc(root: Path, excl):
     return doc
 
 
+_FRESH = {}  # from-scratch report per (file configuration, exclusion config); the real scan runs once per key and worker
+
+
 def do_scan(root: Path, files, excl, cache_doc):
     """run the real scan in root (already materialised); returns (new cache doc, violations)"""
     from codelimit.common.report.Report import Report
@@ -138,7 +143,12 @@ def do_scan(root: Path, files, excl, cache_doc):
     if exc is not None or code not in (None, 0):
         return None, [("scan-fails", {"error": type(exc).__name__ if exc else f"exit-{code}"}, repr(exc))]
     new_doc = json.loads((root / ".codelimit_cache" / "codelimit.json").read_text())
-    want = fresh_doc(root, excl)
+    key = (tuple(sorted(files.items())), excl)
+    if key not in _FRESH:
+        d = fresh_doc(root, excl)
+        d.pop("root", None)
+        _FRESH[key] = d
+    want = dict(_FRESH[key], root=new_doc.get("root"))
     sel = selected(files, excl)
     if normalise(new_doc) != want:
         gf, wf = new_doc["codebase"]["files"], want["codebase"]["files"]
@@ -180,6 +190,9 @@ def check_viewers(root: Path, cache_doc):
     return out
 
 
+QUICK = {"on": False}
+
+
 def tampered(doc, universe_paths):
     """tampered variants of a cache document: (label, doc)"""
     out = []
@@ -192,7 +205,7 @@ def tampered(doc, universe_paths):
     d = copy.deepcopy(doc)
     d["version"] = None
     out.append(("null-version", d))
-    for p in sorted(doc["codebase"]["files"]):
+    for p in sorted(doc["codebase"]["files"])[: (1 if QUICK["on"] else None)]:
         d = copy.deepcopy(doc)
         del d["codebase"]["files"][p]
         out.append((f"drop:{p}", d))
@@ -409,9 +422,10 @@ def replay(case):
 def run(ctx: core.Ctx):
     import multiprocessing as mp
 
-    paths = ctx.pick(["a.py", "d/a.py"], ["a.py", "d/a.py", "d/c.js"])  # same basename in two folders on purpose
-    cids = ctx.pick(["c1", "c2"], ["c1", "c2", "c3"])
+    paths = ctx.pick(["a.py", "d/a.py", "d/c.js"], ["a.py", "d/a.py", "d/c.js"])  # same basename in two folders, two languages
+    cids = ctx.pick(["c1", "cx"], ["c1", "c2", "c3", "cx"])
     hist_paths, hist_cids, hist_depth = ["a.py", "d/a.py"], ["c1", "c2"], ctx.pick(3, 4)
+    QUICK["on"] = ctx.quick
     configs = file_configs(paths, cids)
     ctx.bounds = {"paths": paths, "contents": cids, "exclusions": EXCL, "file_configurations": len(configs),
                   "history_universe": {"paths": hist_paths, "contents": hist_cids, "ops": len(history_ops(hist_paths, hist_cids)), "max_ops_before_final_scan": hist_depth}}
@@ -431,7 +445,7 @@ def run(ctx: core.Ctx):
                 continue
             done.add(canon)
             for files in configs:
-                for excl in EXCL:
+                for excl in (EXCL[:2] if ctx.quick else EXCL):
                     todo.append((files, excl, doc, label))
         if not todo:
             break
